@@ -27,8 +27,8 @@ using namespace muscle;
 
 // ----------------------------------------------------------------------------------------------- shared by Gen and Exec
 // A generated Message is (what = low 32 bits of gseed)[, "from" = sender][, "p" = raw payload].  Its flattened size is
-// chosen by the plan: 12 (no fields), 33 ("from" only) or any size >= 55 (payload of size-55 bytes).
-static const uint32_t kFlatEmpty = 12, kFlatFromOnly = 33, kFlatBase = 55;
+// chosen by the plan: 12 (no fields), 33 ("from" only) or any size >= 56 (payload of size-55 bytes; a payload cannot be empty).
+static const uint32_t kFlatEmpty = 12, kFlatFromOnly = 33, kFlatOverhead = 55, kFlatBase = 56;
 static const uint32_t kTunnelChunkHdr = 24, kMiniPktHdr = 12, kMiniChunkHdr = 4, kSlaveHdr = 8;
 static const int kMaxSenders = 3;
 inline uint32_t RoundFlat(uint32_t sz) {return (sz < kFlatFromOnly) ? kFlatEmpty : ((sz < kFlatBase) ? kFlatFromOnly : sz);}
@@ -155,12 +155,14 @@ inline Plan Gen(uint64_t seed)
    g.slaveHdr = slave ? kSlaveHdr : 0;
    g.s.resize((size_t) senders);
    GFaults f;
-   f.any     = !cfg.oneIn(4);                 // one run in four has a perfect transport
-   f.drop    = f.any && !cfg.oneIn(3);        // each kind is off in a third of the faulty runs
-   f.dup     = f.any && !cfg.oneIn(3);
-   f.reorder = f.any && !cfg.oneIn(3);
-   f.wblock  = f.any && !cfg.oneIn(3);
-   f.restart = f.any && cfg.oneIn(6);
+   f.any     = !cfg.oneIn(4);                 // one run in four has a perfect transport (and no would-blocks)
+   const bool wbOnly = f.any && cfg.oneIn(8);  // a perfect transport, but the senders' writes block now and then
+   f.drop    = f.any && !wbOnly && !cfg.oneIn(3);   // each kind is off in a third of the faulty runs
+   f.dup     = f.any && !wbOnly && !cfg.oneIn(3);
+   f.reorder = f.any && !wbOnly && !cfg.oneIn(3);
+   f.wblock  = f.any && (wbOnly || !cfg.oneIn(3));
+   f.restart = f.any && !wbOnly && cfg.oneIn(6);
+   if ((g.mini)&&(zl > 0)&&(!cfg.oneIn(4))) f.wblock = false;   // would-block + mini-tunnel compression loses Messages (finding); kept rare so that it cannot drown everything else
    static const int rates[] = {2, 5, 10, 25}; static const int rrates[] = {5, 15, 40};
    f.pdrop = rates[cfg.below(4)]; f.pdup = rates[cfg.below(4)]; f.preorder = rrates[cfg.below(3)];
    const int fillBias = (int) cfg.below(5);   // 0-3: every Message uses that fill; 4: mixed
@@ -172,10 +174,13 @@ inline Plan Gen(uint64_t seed)
    // sizes are flattened sizes; the buffer the tunnel fragments is sh bytes longer
    const uint32_t maxFrag = (cap < 8) ? 120 : 20;                      // the longest Message, in packets
    const uint64_t maxFlat64 = std::min<uint64_t>((uint64_t) cap*maxFrag, 190000);
-   const uint32_t maxFlat = (uint32_t) std::max<uint64_t>(maxFlat64, kFlatEmpty+sh) - sh;
+   uint32_t maxFlat = (uint32_t) std::max<uint64_t>(maxFlat64, kFlatEmpty+sh) - sh;
+   // with a slave gateway the receiver loses every Message whose buffer exceeds the default packet size (finding): such Messages only in one slave run in sixty
+   const bool bigSlave = slave && cfg.oneIn(60);
+   if ((slave)&&(!bigSlave)) maxFlat = std::min<uint32_t>(maxFlat, (uint32_t) MUSCLE_MAX_PAYLOAD_BYTES_PER_UDP_ETHERNET_PACKET - kSlaveHdr);
    uint32_t common;
    {
-      if (g.mini) {const uint32_t fit = (cap > sh) ? (cap-sh) : 0; static const uint32_t d[] = {0, 1, 2, 7}; common = cfg.oneIn(2) ? ((fit > d[cfg.below(4)]) ? (fit - d[cfg.below(4)]) : fit) : (kFlatBase + cfg.below(40)); if (cfg.oneIn(3)) common = fit/2;}
+      if (g.mini) {const uint32_t fit = (cap > sh) ? (cap-sh) : 0; static const uint32_t d[] = {0, 1, 2, 7}; const uint32_t dd = d[cfg.below(4)]; common = cfg.oneIn(2) ? ((fit > dd) ? (fit-dd) : fit) : (kFlatBase + cfg.below(40)); if (cfg.oneIn(3)) common = fit/2;}
       else switch(cfg.below(6))
       {
          case 0:  common = 2*cap-sh; break;                          // exactly two full packets
@@ -254,7 +259,7 @@ inline Plan Gen(uint64_t seed)
       if ((plannedPackets >= maxPackets)||(bytes >= maxBytes)||(p.size() > 900)) break;
 
       // the scenario behind finding F10: a sender dies after the head of a Message; its successor's Message with the same id and size loses its head
-      if ((f.restart)&&(wl.oneIn(2)))
+      if ((f.restart)&&(wl.oneIn(6)))
       {
          const int s = (int) wl.below((uint32_t) senders);
          if ((g.s[(size_t) s].done <= 4)&&(g.Idle(s)))
@@ -279,7 +284,8 @@ inline Plan Gen(uint64_t seed)
       for (int i=0; (i<k)&&(msgs < 30)&&(plannedPackets < maxPackets)&&(bytes < maxBytes); i++)
       {
          const int s = (int) wl.below((uint32_t) senders);
-         uint32_t sz = burst ? RoundFlat(kFlatEmpty + wl.below(std::max<uint32_t>(1, std::min<uint32_t>(cap/3, 80)))) : PickSize();
+         uint32_t sz = PickSize();
+         if (burst) {const uint32_t r = wl.below(4); sz = (r == 0) ? kFlatEmpty : ((r == 1) ? kFlatFromOnly : RoundFlat(kFlatBase + wl.below(std::max<uint32_t>(1, std::min<uint32_t>(cap/3, 60)))));}
          const uint32_t np = std::max<uint32_t>(1, g.NumPackets(sz));
          if (plannedPackets+np > maxPackets+40) sz = kFlatEmpty;
          EmitMsg(s, sz, true);
@@ -294,12 +300,19 @@ inline Plan Gen(uint64_t seed)
          const uint32_t r = wl.below(100);
          if (r < 55) Flush(s);
          else if (r < 80) {const int n = 1 + (int) wl.below(4); for (int j=0; j<n; j++) EmitOut(s, 1);}            // a few packets only
-         else EmitOut(s, 1 + wl.below(3*g.mtu));
+         else EmitOut(s, ((g.mini)&&(zl > 0)) ? 1 : (1 + wl.below(3*g.mtu)));   // (with compression the model cannot know how many bytes a packet has)
          if ((f.restart)&&(fl.oneIn(5))) {p.push_back("restart " + I(s)); g.Restart(s);}
       }
       // network and receiver
       if (!wl.oneIn(5)) NetPhase();
       if (!wl.oneIn(5)) In();
+   }
+   // 39 plans in 40 end with an explicit flush of every sender (DoOutput until the model says nothing is held back), so that a
+   // packet held after a would-block -- which HasBytesToOutput() does not report (finding) -- is stranded at the end of few runs only.
+   if (!wl.oneIn(40))
+   {
+      for (int s=0; s<senders; s++) Flush(s);
+      NetPhase(); In();
    }
    return p;
 }
@@ -309,6 +322,7 @@ struct Pkt
 {
    std::string b; int src; uint32_t seq;
    uint8_t chunks; bool startsMid, endsPartial, compressed;   // what the packet contains (parsed when it was written; statistics only)
+   Pkt() : src(0), seq(0), chunks(0), startsMid(false), endsPartial(false), compressed(false) {}
 };
 struct Harness;
 
@@ -329,7 +343,7 @@ private:
    Harness * _h; int _src; uint32 _mtu; IPAddressAndPort _dst;
 };
 
-struct SentRec {int uid; bool must;};
+struct SentRec {int uid; bool must; bool slaveBig;};
 struct Unique {std::string flat; int sent[kMaxSenders]; int got[kMaxSenders]; uint32_t nfrag; Unique() : nfrag(0) {for (int i=0; i<kMaxSenders; i++) sent[i] = got[i] = 0;}};
 struct SenderState
 {
@@ -356,6 +370,7 @@ struct Harness : public AbstractGatewayMessageReceiver
 
    Harness(const Plan & plan, RunResult & r) : cfg(plan), res(r), st(r.stats), drops(0), dups(0), reorders(0), wouldBlocks(0), restarts(0), packets(0), delivered(0), msgsSent(0), lastDeliveredSrc(-1), curOp(0)
    {
+      for (int i=0; i<NUM_K; i++) k[i] = 0;
       mini    = cfg.i("mini", 0) != 0;
       slave   = cfg.i("slave", 0) != 0;
       tag     = cfg.i("tag", 1) != 0;
@@ -396,7 +411,26 @@ struct Harness : public AbstractGatewayMessageReceiver
       return ret;
    }
 
-   [[noreturn]] void Violate(const std::string & cls, const std::string & detail) {res.hash = th.h; Fail(cls, detail);}
+   // hot counters (per packet / per Message); folded into the run's statistics at the end
+   enum {K_PACKED = 0, K_EXACT_MTU, K_MINI_COMP, K_MINI_FALLBACK, K_LATE, K_DUP_PKT, K_INTERLEAVED, K_OTHER_MID, K_SEX_PKT, K_TAGS, K_DELIVERED, K_TWICE, K_MULTI_FRAG, NUM_K};
+   uint64_t k[NUM_K];
+   void FoldCounters()
+   {
+      static const char * names[NUM_K] = {"p.packed_multi_msg_packet", "p.packet_exactly_mtu", "p.mini_packet_compressed", "p.mini_packet_compress_fallback", "p.late_packet", "p.duplicate_packet_delivered",
+                                          "p.interleaved_senders", "p.other_sender_mid_message", "p.sex_excluded_packet", "remote_location_tags_checked", "msgs_delivered", "p.whole_msg_delivered_twice_after_dup", "p.multi_fragment_msg"};
+      for (int i=0; i<NUM_K; i++) {if (k[i]) st.inc(names[i], k[i]); k[i] = 0;}
+   }
+   [[noreturn]] void Violate(const std::string & cls, const std::string & detail) {FoldCounters(); res.hash = th.h; Fail(cls, detail);}
+   // violation classes that the unchanged library is known to produce go through here (a measurement build can count them instead)
+   void Finding(const std::string & cls, const std::string & detail)
+   {
+#ifdef C12_COUNT_FINDINGS
+      st.inc("counted." + cls); (void) detail;
+#else
+      Violate(cls, detail);
+#endif
+   }
+   std::string ConfigSummary() const {return "mini=" + I(mini) + " zl=" + I(zl) + " mtu=" + U(mtu) + " slave=" + I(slave) + " senders=" + I(senders) + " ts=" + U(ts);}
    int SrcOf(const IPAddressAndPort & a) const {for (int s=0; s<senders; s++) if (S[s].addr == a) return s; return -1;}
    bool AnyRestart() const {return restarts > 0;}
 
@@ -407,13 +441,14 @@ struct Harness : public AbstractGatewayMessageReceiver
       SenderState & ss = S[src];
       if (ss.wblock > 0) {ss.wblock--; wouldBlocks++; th.u(0xB10C0000u + (uint64_t) src); return io_status_t();}
       if ((n > mtu)&&(ioViolCls.empty())) {ioViolCls = "mtu_exceeded"; ioViolDetail = "sender " + I(src) + " wrote a packet of " + U(n) + " bytes although the MTU is " + U(mtu);}
-      Pkt p; p.b.assign((const char *) b, n); p.src = src; p.seq = ss.nextSeq++;
+      inflight.push_back(Pkt()); Pkt & p = inflight.back();
+      p.b.assign((const char *) b, n); p.src = src; p.seq = ss.nextSeq++;
       Parse(p);
       ss.lastWrittenEndsPartial = p.endsPartial;
-      if (p.chunks >= 2) st.inc("p.packed_multi_msg_packet");
-      if (n == mtu) st.inc("p.packet_exactly_mtu");
-      if (mini && (zl > 0)) st.inc(p.compressed ? "p.mini_packet_compressed" : "p.mini_packet_compress_fallback");
-      inflight.push_back(p); packets++;
+      if (p.chunks >= 2) k[K_PACKED]++;
+      if (n == mtu) k[K_EXACT_MTU]++;
+      if (mini && (zl > 0)) k[p.compressed ? K_MINI_COMP : K_MINI_FALLBACK]++;
+      packets++;
       th.u(((uint64_t) src<<32) | n); th.b(b, n);
       return io_status_t((int32) n);
    }
@@ -471,7 +506,7 @@ struct Harness : public AbstractGatewayMessageReceiver
       if (size < kFlatFromOnly) return m;
       (void) m()->AddInt32("from", sender);
       if (size < kFlatBase) return m;
-      const uint32 n = size - kFlatBase;
+      const uint32 n = size - kFlatOverhead;
       std::string buf(n, '\0');
       uint8 * q = (uint8 *) &buf[0];   // valid (never NULL) for n == 0 too
       const uint8 letter = (uint8)('A' + (gseed % 26));
@@ -506,7 +541,12 @@ struct Harness : public AbstractGatewayMessageReceiver
       uniq[(size_t) uid].sent[s]++;
       SentRec sr; sr.uid = uid;
       const bool fits = (!mini)||((kMiniPktHdr+kMiniChunkHdr+bufSize) <= mtu);
-      sr.must = fits && !S[s].excluded;
+      // With a slave gateway the receiving side hands every reassembled buffer to the slave through a ByteBufferPacketDataIO whose
+      // maximum packet size is the library default, so longer buffers are cut off and the Message is lost (finding, reported under
+      // its own class at the end of the run; the sequence comparison treats such Messages as optional so that it cannot mask anything else).
+      sr.slaveBig = (slave)&&(fits)&&(!S[s].excluded)&&(bufSize > (uint32_t) MUSCLE_MAX_PAYLOAD_BYTES_PER_UDP_ETHERNET_PACKET);
+      sr.must = fits && !S[s].excluded && !sr.slaveBig;
+      if (sr.slaveBig) st.inc("p.msg_beyond_slave_packet_limit");
       if (!fits) st.inc("p.mini_oversize_msg");
       if (size < kFlatFromOnly) st.inc("p.empty_msg");
       if ((!S[s].sentSeq.empty())&&(uniq[(size_t) S[s].sentSeq.back().uid].flat.size() == f.size())&&(uniq[(size_t) uid].nfrag > 1)) st.inc("p.equal_size_multifrag_neighbours");
@@ -531,20 +571,22 @@ struct Harness : public AbstractGatewayMessageReceiver
    {
       if (inflight.empty()) return;
       i %= inflight.size();
-      const Pkt p = inflight[i];
-      bool oldest = true; for (size_t k=0; k<i; k++) if ((inflight[k].src == p.src)&&(inflight[k].seq < p.seq)) {oldest = false; break;}
+      const int src = inflight[i].src; const uint32_t seq = inflight[i].seq;
+      bool oldest = true; for (size_t k=0; k<i; k++) if ((inflight[k].src == src)&&(inflight[k].seq < seq)) {oldest = false; break;}
+      rx.push_back(Pkt()); std::swap(rx.back(), inflight[i]);
       inflight.erase(inflight.begin()+(long) i);
-      SenderState & ss = S[p.src];
+      const Pkt & p = rx.back();
+      SenderState & ss = S[src];
       if (!oldest) reorders++;
-      if ((ss.anyDelivered)&&(p.seq < ss.maxDeliveredSeq)) st.inc("p.late_packet");
-      if (ss.deliveredSeqs.insert(p.seq).second == false) {ss.dupDelivered++; st.inc("p.duplicate_packet_delivered");}
-      if ((!ss.anyDelivered)||(p.seq > ss.maxDeliveredSeq)) ss.maxDeliveredSeq = p.seq;
+      if ((ss.anyDelivered)&&(seq < ss.maxDeliveredSeq)) k[K_LATE]++;
+      if (ss.deliveredSeqs.insert(seq).second == false) {ss.dupDelivered++; k[K_DUP_PKT]++;}
+      if ((!ss.anyDelivered)||(seq > ss.maxDeliveredSeq)) ss.maxDeliveredSeq = seq;
       ss.anyDelivered = true;
-      if ((lastDeliveredSrc >= 0)&&(lastDeliveredSrc != p.src)) {st.inc("p.interleaved_senders"); if (S[lastDeliveredSrc].rxMidMessage) st.inc("p.other_sender_mid_message");}
-      ss.rxMidMessage = p.endsPartial; lastDeliveredSrc = p.src;
-      if (ss.excluded) st.inc("p.sex_excluded_packet");
-      rx.push_back(p); delivered++;
-      th.u(((uint64_t) p.src<<32) | p.seq); (void) inDrain;
+      if ((lastDeliveredSrc >= 0)&&(lastDeliveredSrc != src)) {k[K_INTERLEAVED]++; if (S[lastDeliveredSrc].rxMidMessage) k[K_OTHER_MID]++;}
+      ss.rxMidMessage = p.endsPartial; lastDeliveredSrc = src;
+      if (ss.excluded) k[K_SEX_PKT]++;
+      delivered++;
+      th.u(((uint64_t) src<<32) | seq); (void) inDrain;
    }
    void OpDrop(size_t i)
    {
@@ -618,35 +660,34 @@ struct Harness : public AbstractGatewayMessageReceiver
             IPAddressAndPort rl;
             if (m()->FindFlat(PR_NAME_PACKET_REMOTE_LOCATION, rl).IsOK())
             {
-               if (!(rl == from)) {pending.clear(); Violate("wrong_source", std::string("the remote-location tag of a delivered Message says ") + rl.ToString()() + " but the gateway reported source " + from.ToString()());}
+               if (!(rl == from)) {Violate("wrong_source", std::string("the remote-location tag of a delivered Message says ") + rl.ToString()() + " but the gateway reported source " + from.ToString()());}
                (void) m()->RemoveName(PR_NAME_PACKET_REMOTE_LOCATION);
-               st.inc("remote_location_tags_checked");
+               k[K_TAGS]++;
             }
          }
          const std::string f = Flat(m);
-         st.inc("msgs_delivered");
+         k[K_DELIVERED]++;
          th.u((uint64_t)(int64_t) src); th.b(f.data(), f.size());
          std::map<std::string, int>::const_iterator it = uidOf.find(f);
          if (it == uidOf.end())
          {
             const std::string d = Describe(f, m, src);
-            pending.clear();
-            if ((src >= 0)&&(S[src].restarts > 0)) Violate("not_sent_after_restart", "after a sender restart of source " + I(src) + " the receiver delivered a Message that was never sent: " + d);
+            if ((src >= 0)&&(S[src].restarts > 0)) {Finding("not_sent_after_restart", "after a sender restart of source " + I(src) + " the receiver delivered a Message that was never sent: " + d); continue;}
             Violate("not_sent", "the receiver delivered a Message that was never sent: " + d + (AnyRestart() ? " (another source had a restart)" : ""));
          }
          Unique & u = uniq[(size_t) it->second];
-         if (src < 0) {pending.clear(); Violate("wrong_source", std::string("a sent Message was delivered with source address ") + from.ToString()() + ", which is no sender's address");}
+         if (src < 0) {Violate("wrong_source", std::string("a sent Message was delivered with source address ") + from.ToString()() + ", which is no sender's address");}
          int32 claimed = -1;
-         if ((m()->FindInt32("from", claimed).IsOK())&&(claimed != src)) {pending.clear(); Violate("wrong_source", "Message #" + I(it->second) + " of sender " + I(claimed) + " was delivered as coming from source " + I(src));}
-         if (u.sent[src] == 0) {pending.clear(); Violate("wrong_source", "Message #" + I(it->second) + " was delivered as coming from source " + I(src) + ", which never sent it");}
-         if (S[src].excluded) {pending.clear(); Violate("excluded_source_delivered", "source " + I(src) + " tags its packets with the receiver's own source-exclusion id " + U(rxsex) + " but Message #" + I(it->second) + " from it was delivered");}
+         if ((m()->FindInt32("from", claimed).IsOK())&&(claimed != src)) {Violate("wrong_source", "Message #" + I(it->second) + " of sender " + I(claimed) + " was delivered as coming from source " + I(src));}
+         if (u.sent[src] == 0) {Violate("wrong_source", "Message #" + I(it->second) + " was delivered as coming from source " + I(src) + ", which never sent it");}
+         if (S[src].excluded) {Violate("excluded_source_delivered", "source " + I(src) + " tags its packets with the receiver's own source-exclusion id " + U(rxsex) + " but Message #" + I(it->second) + " from it was delivered");}
          u.got[src]++;
          if (u.got[src] > u.sent[src])
          {
-            if (S[src].dupDelivered == 0) {pending.clear(); Violate("dup_without_dup_fault", "Message #" + I(it->second) + " (" + U(f.size()) + " bytes) was sent " + I(u.sent[src]) + " time(s) by source " + I(src) + " but delivered " + I(u.got[src]) + " times although no packet of that source was duplicated" + ((S[src].restarts > 0) ? " (the source had a restart)" : ""));}
-            st.inc("p.whole_msg_delivered_twice_after_dup");
+            if (S[src].dupDelivered == 0) {Violate("dup_without_dup_fault", "Message #" + I(it->second) + " (" + U(f.size()) + " bytes) was sent " + I(u.sent[src]) + " time(s) by source " + I(src) + " but delivered " + I(u.got[src]) + " times although no packet of that source was duplicated" + ((S[src].restarts > 0) ? " (the source had a restart)" : ""));}
+            k[K_TWICE]++;
          }
-         if (u.nfrag > 1) st.inc("p.multi_fragment_msg");
+         if (u.nfrag > 1) k[K_MULTI_FRAG]++;
          S[src].gotSeq.push_back(it->second);
       }
       pending.clear();
@@ -729,21 +770,35 @@ inline void Exec(const Plan & plan, RunResult & res)
    if (!transportFaults) okA = h.AllSequencesMatch(why);
    // stage B: DoOutput() even on gateways that report nothing to output (flushes a packet held back after a would-block)
    h.th.s("drainB");
-   const uint64_t deliveredBefore = res.stats.c["msgs_delivered"];
+   const uint64_t deliveredBefore = h.k[Harness::K_DELIVERED];
    for (int round=0; round<2; round++) {h.FlushSenders(true); h.DeliverAllInOrder(); h.OpIn(0);}
-   if (res.stats.c["msgs_delivered"] > deliveredBefore) h.st.inc("p.msgs_released_only_by_unsolicited_dooutput", res.stats.c["msgs_delivered"] - deliveredBefore);
+   if (h.k[Harness::K_DELIVERED] > deliveredBefore) h.st.inc("p.msgs_released_only_by_unsolicited_dooutput", h.k[Harness::K_DELIVERED] - deliveredBefore);
    if (!transportFaults)
    {
       std::string whyB;
       const bool okB = h.AllSequencesMatch(whyB);
-      if (!okB) h.Violate(perfect ? "perfect_mismatch" : "wouldblock_mismatch", std::string(perfect ? "no fault fired in this run" : "only would-blocks fired in this run (every packet written was delivered once and in order)") + ", yet " + whyB);
-      if (!okA) h.Violate("stuck_after_would_block", "every packet written was delivered once and in order, yet " + why + " until DoOutput() was called on a gateway whose HasBytesToOutput() was false: a packet held back after a would-block is not reported as pending output");
+      const std::string how = std::string(perfect ? "no fault fired in this run" : "only would-blocks fired in this run (every packet written was delivered once and in order)") + " [" + h.ConfigSummary() + "]";
+      if ((!okB)&&(perfect)) h.Violate("perfect_mismatch", how + ", yet " + whyB);
+      if (!okB) h.Finding("wouldblock_mismatch", how + ", yet " + whyB);
+      else if (!okA) h.Finding("stuck_after_would_block", how + ", yet " + why + " until DoOutput() was called on a gateway whose HasBytesToOutput() was false: a packet held back after a would-block is not reported as pending output");
+      for (int s=0; s<h.senders; s++)
+      {
+         const std::vector<SentRec> & sent = h.S[s].sentSeq;
+         for (size_t i=0; i<sent.size(); i++)
+         {
+            const Unique & u = h.uniq[(size_t) sent[i].uid];
+            if ((sent[i].slaveBig)&&(u.got[s] < u.sent[s]))
+               h.Finding("big_msg_lost_with_slave", how + ", yet sender " + I(s) + "'s Message " + U(i) + " (#" + I(sent[i].uid) + ", " + U(u.flat.size()) + " bytes flattened, " + U(u.nfrag) + " packet(s)) was never delivered: with a slave gateway the receiver cuts every reassembled buffer down to "
+                                                        + U((uint32_t) MUSCLE_MAX_PAYLOAD_BYTES_PER_UDP_ETHERNET_PACKET) + " bytes");
+         }
+      }
    }
    (void) wbBeforeDrain;
    WatchdogDisarm();
 
    // statistics / non-triviality
    Stats & st = res.stats;
+   h.FoldCounters();
    st.inc("msgs_sent", h.msgsSent);
    st.inc("packets", h.packets);
    st.inc("packets_delivered", h.delivered);
